@@ -18,7 +18,7 @@ def run(ctx, model_ok, deep=False):
     extra = {"rsa1024": K.gen_key("rsa", 1024, ctx.scratch), "rsa2047": K.gen_key("rsa", 2047, ctx.scratch),
              "rsa2041": K.gen_key("rsa", 2041, ctx.scratch), "rsa2050": K.gen_key("rsa", 2050, ctx.scratch), "p384": K.gen_key("ec", "P-384", ctx.scratch),
              "p521": K.gen_key("ec", "P-521", ctx.scratch), "k256": K.gen_key("ec", "secp256k1", ctx.scratch),
-             "ed448": K.gen_key("okp", "ED448", ctx.scratch)}
+             "ed448": K.gen_key("okp", "ED448", ctx.scratch), "brainpool512": K.gen_key("ec", "brainpoolP512r1", ctx.scratch)}
     if ctx.tier == "thorough" or deep:
         extra.update({"rsa512": K.gen_key("rsa", 512, ctx.scratch), "rsa2040": K.gen_key("rsa", 2040, ctx.scratch),
                       "rsa3072": K.gen_key("rsa", 3072, ctx.scratch), "rsa4096": K.gen_key("rsa", 4096, ctx.scratch)})
